@@ -7,6 +7,7 @@ import TantivyModel.Proofs.GrammarCharsPrint
 import TantivyModel.Proofs.GrammarCharsPrintList
 import TantivyModel.Proofs.GrammarCharsNested
 import TantivyModel.Proofs.GrammarCharsBoost
+import TantivyModel.Proofs.GrammarCharsText
 import TantivyModel.Model.Grammar.Agree
 /-!
 # C16 — The query parser is total and implements its documented grammar
@@ -394,6 +395,42 @@ example :
   simp only [List.mem_singleton] at hi
   subst hi
   exact .base _ (.phraseEsc _ _ trivial)
+
+/-- **from the text to the documents**: for every layout of `x₀ op₁ x₁ … opₙ xₙ` (`AND`/`OR`
+    keywords, no markers, every `xᵢ` an item of `C16_print_parse_boosted`, `n ≥ 1`) the strict parser
+    accepts the text, and the tree it returns means the OR over the maximal AND-runs of the
+    operands' meanings — whenever the operands resolve (`isDead … = false`) and `rewrite_ast` is
+    meaning-preserving on the folded tree (`safeWith`, decidable, see `C16_rewrite_preserves_sem`). -/
+theorem C16_text_precedence {T : Type} (guard : Bool) (lead k : Nat) (o : Opd) (ops : List (BinOp × Opd × Nat × Nat))
+    (hne : ops ≠ []) (ho : ∃ b, WFB b o) (hm : ∀ x ∈ ops, ∃ b, WFB b x.2.1)
+    (m : Mode) (res : CLeaf → LAst T) (v : T → Bool)
+    (hd0 : isDead (toLogical m res o.leaf) = false)
+    (hdr : ∀ x ∈ ops, isDead (toLogical m res x.2.1.leaf) = false)
+    (hsafe : safeWith m false (listTree none o (opItems ops)) = true) :
+    ∃ t, parseStrictWith guard (printList lead none o (opItems ops) k []) = .tree t
+      ∧ semAst m res v t
+        = orOfAnds (semAst m res v o.leaf) (ops.map fun x => (x.1, semAst m res v x.2.1.leaf)) := by
+  refine ⟨rewrite (listTree none o (opItems ops)), ?_, ?_⟩
+  · refine C16_print_parse_boosted guard lead none o (opItems ops) k ho ?_
+    intro it hi
+    simp only [opItems, List.mem_map] at hi
+    obtain ⟨x, hx, rfl⟩ := hi
+    exact hm x hx
+  · rw [C16_rewrite_preserves_sem m res v _ hsafe, listTree_chain o ops hne]
+    have := C16_precedence m res v o.leaf (ops.map fun x => (x.1, x.2.1.leaf)) hd0 (by
+      intro y hy
+      simp only [List.mem_map] at hy
+      obtain ⟨x, hx, rfl⟩ := hy
+      exact hdr x hx)
+    simpa [List.map_map, Function.comp_def] using this
+
+/-- `a AND b  OR c`: the hypotheses hold (words resolve, `rewrite_ast` is safe on the folded tree) -/
+example :
+    let o := wordOpd ['a']
+    let ops : List (BinOp × Opd × Nat × Nat) := [(.and, wordOpd ['b'], 0, 0), (.or, wordOpd ['c'], 1, 0)]
+    printList 0 none o (opItems ops) 0 [] = ['a', ' ', 'A', 'N', 'D', ' ', 'b', ' ', ' ', 'O', 'R', ' ', 'c']
+    ∧ safeWith .orDefault false (listTree none o (opItems ops)) = true
+    ∧ isDead (toLogical .orDefault LAst.leaf o.leaf) = false := ⟨by decide, rfl, rfl⟩
 
 /-- the tree of a printed list is the strict fold of the operands' trees (the subject of the
     fold-layer theorems) -/
